@@ -207,6 +207,26 @@ def run(chk, scratch):
                                   "world=%d: %s %s between a fresh conversion of the annotation and the run that found another annotation's database "
                                   "cached under the same path (%s)" % (seed, rel, why, name), wit)
                 outs[name] = out
+        # an annotation in which every third gene is described by exon records only: a conversion made WITH --complete_genedb (nothing inferred)
+        # is cached; a later run of the same file WITHOUT the option must give what a fresh conversion gives (the genes are inferred)
+        skip = {g.id for i_, g in enumerate(w.genes) if g.transcripts and i_ % 3 == 0}
+        gtf_p = os.path.join(d, "partial.gtf")
+        w.write_gtf(gtf_p, no_meta_genes=skip)
+        p1 = one(("partial-complete", ["-g", gtf_p, "--complete_genedb", "--bam", bam], "home_partial", None))
+        p2 = one(("partial-inferred-after-complete", ["-g", gtf_p, "--bam", bam], "home_partial", "annotation-cache"))
+        p3 = one(("partial-inferred-fresh", ["-g", gtf_p, "--bam", bam], "home_partial_fresh", "annotation-cache"))
+        if p2[3]["rc"] != 0 or p3[3]["rc"] != 0:
+            for nm_, pr_ in (("partial-inferred-after-complete", p2), ("partial-inferred-fresh", p3)):
+                if pr_[3]["rc"] not in (0, None):
+                    chk.violation("run-failed:" + nm_, "world=%d %s: %s" % (seed, nm_, pipeline.fail_text(pr_[3])), {"world_seed": seed, "representation": nm_})
+        else:
+            chk.note()
+            chk.count("partial_annotation_sequences")
+            chk.nontrivial.add(("partial-inferred-after-complete", 1, False, "Gene annotation file found" in p2[3]["out"]))
+            for rel, why in runner.compare_trees(os.path.join(p3[1], pipeline.PREFIX), os.path.join(p2[1], pipeline.PREFIX)):
+                chk.violation("annotation-representation-changes-output:cached-complete-conversion-used-for-inferred-run:%s" % (rel.split(".", 1)[1] if "." in rel else rel),
+                              "world=%d: %s %s between a fresh run without --complete_genedb and the same run started after a --complete_genedb run of the same file "
+                              "under the same HOME" % (seed, rel, why), {"world_seed": seed, "representation": "partial-inferred-after-complete"})
         chk.sample({"world": seed, "representations_compared": sorted(n for n in outs if n != "ref")}, limit=2)
         if chk.violations and not getattr(chk, "witness_files", None):
             chk.witness_files = [os.path.join(d, f) for f in os.listdir(d) if f.endswith((".bam", ".bai", ".gtf", ".gz", ".fa"))]
